@@ -76,7 +76,9 @@ def run(ctx):
             continue
         x = g[prod(d)]
         x[0] += 1
-        why = (d['safety'][0] if d['safety'] else None) or (None if d['detect_ok'] else d['detect_detail'])
+        # structural equality with the reference is required here (no logical fallback): the guard
+        # must be present, not merely implied
+        why = (d['safety'][0] if d['safety'] else None) or (d['accept_detail'] or None) or (d['detect_detail'] or None)
         if why and x[1] is None:
             x[1] = f'{d["shape"]}: {why}'
     for p, (n, why) in sorted(g.items()):
